@@ -13,7 +13,7 @@ META = {
              'exception propagated. Signature = transition signature; non-trivial = raised, warned or changed.'),
     'exhaustive_part': 'fault position x list length grid complete to the stated bounds; histories are sampled',
     'workers': {'quick': 12, 'thorough': 16},
-    'watchdog': {'quick': 300, 'thorough': 1800},
+    'watchdog': {'quick': 600, 'thorough': 3600},
     'assumptions': ['no artificial exceptions are injected inside a merge (DESIGN section 1): faults are input faults'],
 }
 
